@@ -332,6 +332,18 @@ func checkC17(c any, r *Rec) error {
 	if (ferr == nil) != (terr == nil) {
 		return fmt.Errorf("%s on %q: ApplyFilter err=%v but template err=%v", f, in, ferr, terr)
 	}
+	// a filter works on its input, it does not alter it: the very *Value handed to ApplyFilter,
+	// printed afterwards, is still escaped (unless the caller had marked it safe)
+	if !cs.SafeIn && utf8.ValidString(in) {
+		ptpl, perr := c17Set.FromString("{{ v }}")
+		if perr != nil {
+			return perr
+		}
+		pout, perr2 := ptpl.Execute(pongo2.Context{"v": inVal})
+		if perr2 != nil || pout != refEscapeHTML(in) {
+			return fmt.Errorf("after %s was applied to it, the input value %q prints as %q (err %v), want it escaped as before: %q", f, in, pout, perr2, refEscapeHTML(in))
+		}
+	}
 	if f == "removetags" {
 		tags, ok := validTagParam(cs.Param)
 		if !ok {
